@@ -61,8 +61,9 @@ def orderbooks(rnd, n, sid="O"):
         elif kind == "dust":
             oid = rnd.choice(ids)
             leave = rnd.choice([1, MINVOL - 1, MINVOL, MINVOL + 1, MINVOL // 2, 3 * MINVOL, 10 ** 17])
-            steps.append({"op": "block", "txs": [sell_into(side, {"order": oid, "leave": str(leave)})]})
             owner = {1: "a2", 2: "a3", 3: "a3", 4: "a4"}.get(oid) or [w for i, w, _ in mine if i == oid][0]
+            taker = rnd.choice([u for u in USERS if u != owner] + ([owner] if rnd.random() < 0.15 else []))
+            steps.append({"op": "block", "txs": [sell_into(side, {"order": oid, "leave": str(leave)}, who=taker)]})
             steps.append({"op": "block", "txs": [{"id": nid(), "type": "RemoveLimitOrder", "from": owner, "check": True, "args": {"order": oid}}]})
         elif kind == "fill-cancel":
             oid = rnd.choice(ids)
